@@ -2,7 +2,9 @@
 C01 — whole-tool part: where `_run_stub_generator` can fail.
 -/
 import StubGen.Proofs.Pipeline
+import StubGen.Proofs.ToolErrors
 import StubGen.Theorems.C01
+import StubGen.Theorems.C01a
 
 namespace StubGen.C01b
 
@@ -58,6 +60,36 @@ theorem tool_generator_errors (i : ToolInput) (root : PathParts) (d : Discovered
     simp only [hg, Except.error.injEq] at h
     subst h
     exact C01.never_keyError _ _ _ _ hg
+
+/-- the serialisation step fails only with the `TypeError` of `json.dump` on a docstring record that holds an enum type -/
+theorem api_file_error_is_typeError (pkg : String) (r : AnaResult) (e : PyErr) (h : apiJsonText pkg r = .error e) :
+    e = .typeError := te_apiJsonText_err pkg r e h
+
+/-- END TO END: THE WHOLE RUN NEVER ENDS IN AN `AssertionError` — none of the consistency guards of the visitor, of the
+    walker or of the generator can fire, for every directory listing, mypy graph, expression-type dict, docstring tree, option
+    set and state of the output directory.  (`sd_noNoneL`: no definition is the stand-in for an `OverloadedFuncDef` without
+    items, which mypy does not build.) -/
+theorem tool_never_asserts (i : ToolInput) (hn : ∀ m ∈ i.graph, sd_noNoneL m.defs = true) :
+    runTool i ≠ .error .assertionError := by
+  intro h
+  have hg := C01a.get_api_never_asserts i hn
+  rcases tool_error_sources h with hd | ⟨root, d, hd, ha | ⟨r, ws, ha, ht | hgen⟩⟩
+  · -- discovery
+    unfold getApi at hg
+    rw [hd] at hg
+    exact hg rfl
+  · -- walk
+    unfold getApi at hg
+    rw [hd] at hg
+    dsimp only at hg
+    rw [ha] at hg
+    exact hg rfl
+  · -- API file
+    have := te_apiJsonText_err _ _ _ ht
+    cases this
+  · -- generator
+    have := C01.never_keyError _ _ _ _ hgen
+    simp at this
 
 /-- the only error of the discovery phase is the documented rejection (`ValueError("No files found to analyse.")`), and it
     is raised exactly when no module file is kept -/
